@@ -136,6 +136,11 @@ def random_pairs(ctx, n_pairs, per_pair):
     rng = random.Random(ctx.seed + 5)
     H, A, O, S = ["deep", "left", "right"], ["all", "left", "right", "unique"], ["all", "deep", "left", "right", "unique"], ["left", "right", "unique"]
     recs = []
+    # a few fixed pairs the random draw met only in the thorough tier: a record without the identity key whose keys are not Strings
+    from harness import absdoc
+    for lraw, rraw in [([{"c": 1.5}], [{"c": 1.5}, {2: {}, "id": 1}]), ([{"id": 1, 3: "a"}], [{"id": 1}, {3: "b", 0: [1]}])]:
+        for h in H:
+            recs.append({"id": len(recs), "l": absdoc.table(lraw), "r": absdoc.table(rraw), "h": h, "a": "all", "o": "deep", "s": "unique", "am": "stop"})
     for i in range(n_pairs):
         l = _plain(randdocs.rand_doc(rng, max_nodes=14, max_depth=3))
         r = _plain(_derive(rng, l) if rng.random() < 0.6 else randdocs.rand_doc(rng, max_nodes=12, max_depth=3))
